@@ -134,6 +134,23 @@ def run_script(ctx, name, lines, kind="asan", impl_mode="run", want_oracle=True,
             k = next((i for i in range(min(len(impl_lines), len(b))) if impl_lines[i] != b[i]), min(len(impl_lines), len(b)))
             case = next((x.split()[2] for x in reversed(impl_lines[:k + 1]) if x.startswith("> CASE")), "?")
             res["locale_diff"] = (case, impl_lines[k] if k < len(impl_lines) else "<missing>", b[k] if k < len(b) else "<missing>")
+    if getattr(ctx, "host_locale", False) and impl_mode == "run" and not res.get("locale_diff"):
+        # ... and in a host program whose namespace-scope objects use the library in their
+        # constructors: the whole script during static initialisation, before the
+        # library's own namespace-scope objects are initialised
+        oe = os.path.join(ctx.dir, name + ".impl-early.out")
+        env4 = dict(env)
+        env4["VERIF_EARLY_SCRIPT"] = sp
+        try:
+            r4 = subprocess.run([ctx.impl[kind], "early"], stdout=open(oe, "w"), stderr=subprocess.PIPE, env=env4, timeout=1800)
+            b = open(oe, errors="replace").read().split("\n")
+            if b != impl_lines and rc == 0:
+                k = next((i for i in range(min(len(impl_lines), len(b))) if impl_lines[i] != b[i]), min(len(impl_lines), len(b)))
+                case = next((x.split()[2] for x in reversed(impl_lines[:k + 1]) if x.startswith("> CASE")), "?")
+                res["locale_diff"] = (case, impl_lines[k] if k < len(impl_lines) else "<missing>",
+                                      "during static initialisation: " + (b[k] if k < len(b) else "<missing>"))
+        except subprocess.TimeoutExpired:
+            pass
     if want_model:
         rcm, errm = run_driver(ctx.model, "model", sp, om)
         if rcm != 0:
